@@ -42,7 +42,8 @@ Section Spec.
   (* what a query ranges over: variables with their domains and flatten nodes with their (dependent)
      element lists, in dependency order *)
   Inductive binder := BVar (x : key) | BFlat (id : key) (t : term)
-                    | BConcat (id : key) (x : key) (t : term).   (* concatenate(t), t over the one variable x *)
+                    | BConcat (id : key) (x : key) (t : term)    (* concatenate(t), t over the one variable x *)
+                    | BConcatFlat (id : key) (x : key) (t : term).   (* concatenate(flatten(t)): the elements of the elements *)
 
   Fixpoint envs (bs : list binder) (e : env) : list env :=
     match bs with
@@ -51,6 +52,8 @@ Section Spec.
     | BFlat id t :: bs' => flat_map (fun v => envs bs' (upd e id v)) (elements (tval t e))
     | BConcat id x t :: bs' =>
         envs bs' (upd e id (VTup (flat_map (fun v => atoms_of (tval t (upd e x v))) (dom x))))
+    | BConcatFlat id x t :: bs' =>
+        envs bs' (upd e id (VTup (flat_map (fun v => flat_map atoms_of (elements (tval t (upd e x v)))) (dom x))))
     end.
 
   Definition env0 : env := fun _ => VA ANone.
